@@ -37,14 +37,15 @@ type Meta struct {
 	Streams         map[string]int `json:"streams_per_case"`
 	NonTriv         int            `json:"distinct_nontrivial_frames"`
 	seen            map[string]bool
-	Samples         []CaseJSON  `json:"samples"`
-	MITM            *MITMResult `json:"mitm_h2_handoff,omitempty"`
-	E2E             []E2EResult `json:"e2e,omitempty"`
-	E2EPlayed       int         `json:"e2e_played"`
-	E2EInconclusive int         `json:"e2e_stopped_at_map_order_difference"`
-	E2EFailed       int         `json:"e2e_failed"`
-	Preface         string      `json:"preface_shard,omitempty"`
-	PrefaceN        int         `json:"preface_cases,omitempty"`
+	Samples         []CaseJSON    `json:"samples"`
+	MITM            *MITMResult   `json:"mitm_h2_handoff,omitempty"`
+	Stress          *StressResult `json:"initial_window_race,omitempty"`
+	E2E             []E2EResult   `json:"e2e,omitempty"`
+	E2EPlayed       int           `json:"e2e_played"`
+	E2EInconclusive int           `json:"e2e_stopped_at_map_order_difference"`
+	E2EFailed       int           `json:"e2e_failed"`
+	Preface         string        `json:"preface_shard,omitempty"`
+	PrefaceN        int           `json:"preface_cases,omitempty"`
 }
 
 func (m *Meta) account(name string, ops []Op, c *Case) {
@@ -154,6 +155,8 @@ func MainOpt(propWhy string, withPreface bool) {
 	replay := flag.String("replay", "", "replay file (a CaseJSON)")
 	n := flag.Int("n", 0, "number of generated histories (0: tier default)")
 	e2e := flag.Int("e2e", 0, "play up to this many refusal-free histories through h2.Config.Proxy (TLS, ALPN h2, real goroutines)")
+	stress := flag.Int("stress", 0, "rounds of the race between SETTINGS_INITIAL_WINDOW_SIZE changes and stream creation through h2.Config.Proxy")
+	stressOnly := flag.Bool("stress-only", false, "run only the race scenario (replay of that finding)")
 	mitmOnly := flag.Bool("mitm", false, "run the MITM h2 hand-off scenario (replay of that finding)")
 	tables := flag.String("tables", "", "coq/g09/Tables.v generated from the tree under test (shape flags the mirrors follow)")
 	flag.Parse()
@@ -179,6 +182,23 @@ func MainOpt(propWhy string, withPreface bool) {
 		cases = append(cases, c)
 		descr = append(descr, CaseJSON{Name: name, Ops: ops, Flush: flush, Steps: c.Steps})
 		m.account(name, ops, c)
+	}
+	runStress := func() {
+		r := StressInitialWindow(*stress)
+		m.Stress = &r
+	}
+	if *stressOnly {
+		if *stress == 0 {
+			*stress = 4000
+		}
+		runStress()
+		data, _ := json.MarshalIndent(m, "", " ")
+		_ = os.WriteFile(filepath.Join(*out, "meta.json"), data, 0o644)
+		_ = os.WriteFile(filepath.Join(*out, "cases.jsonl"), nil, 0o644)
+		return
+	}
+	if *stress > 0 && *replay == "" {
+		runStress()
 	}
 	if *mitmOnly {
 		r := RunMITMHandoff(*out)
